@@ -73,11 +73,19 @@ Proof.
   simpl. apply last_split_seps.
 Qed.
 
+(* The proofs below do not follow the syntax of the generated terms: the leaf tests are decided by case analysis on
+   every boolean atom, the builders by destructing the module's fields and every safe_leafname result, so that a
+   behaviour-preserving rewrite of the source (tests or `?` steps in another order) still passes. *)
+Ltac bool_crush := cbn; repeat match goal with
+  | |- context [?x =? ?y] => destruct (x =? y)
+  | |- context [is_alpha ?x] => destruct (is_alpha x)
+  | |- context [str_eqb ?x ?y] => destruct (str_eqb x y)
+  end; cbn; try reflexivity.
+
 Lemma g_safe_leafname_eq : forall p, g_safe_leafname p = safe_leafname p.
 Proof.
   intro p. unfold g_safe_leafname, safe_leafname. rewrite g_leafname_eq.
-  destruct (leafname p) as [|a [|b t]]; try reflexivity.
-  cbn. rewrite (andb_comm (b =? 58) (is_alpha a)). reflexivity.
+  destruct (leafname p) as [|a [|b t]]; bool_crush.
 Qed.
 
 Lemma g_roae_eq : forall f e n, g_replace_or_add_extension f e n = replace_or_add_extension f e n.
@@ -90,46 +98,42 @@ Proof.
   destruct (Nat.ltb_spec 1 (length (h :: t))); [apply Z.ltb_lt | apply Z.ltb_ge]; lia.
 Qed.
 
+Ltac builder_crush :=
+  unfold pick_leaf, vec_join, str_to_uppercase; cbv zeta;
+  repeat (cbn [opt_bind m_code_file m_code_identifier m_debug_file m_debug_identifier str_is_empty];
+          rewrite ?g_safe_leafname_eq, ?g_roae_eq;
+          match goal with
+          | |- context [opt_bind (safe_leafname ?x) _] => destruct (safe_leafname x)
+          | |- context [match safe_leafname ?x with _ => _ end] => destruct (safe_leafname x)
+          end);
+  cbn [opt_bind str_is_empty]; rewrite ?g_roae_eq; try reflexivity.
+
 Lemma g_breakpad_sym_eq : forall m,
   g_breakpad_sym_lookup m = breakpad_sym_lookup (m_debug_file m) (m_debug_identifier m).
 Proof.
-  intro m. unfold g_breakpad_sym_lookup, breakpad_sym_lookup, breakpad_sym_lookup_gen, pick_leaf, opt_bind.
-  destruct (m_debug_file m) as [df|]; [|reflexivity].
-  destruct (m_debug_identifier m) as [id|]; [|reflexivity].
-  rewrite g_safe_leafname_eq. destruct (safe_leafname df) as [leaf|]; [|reflexivity].
-  cbv zeta. rewrite g_roae_eq. reflexivity.
+  intros [cf cid df did]. unfold g_breakpad_sym_lookup, breakpad_sym_lookup, breakpad_sym_lookup_gen.
+  destruct cid, df, did; builder_crush.
 Qed.
 
 Lemma g_code_info_eq : forall m,
   g_code_info_breakpad_sym_lookup m = code_info_breakpad_sym_lookup (m_code_file m) (m_code_identifier m).
 Proof.
-  intro m. unfold g_code_info_breakpad_sym_lookup, code_info_breakpad_sym_lookup,
-    code_info_breakpad_sym_lookup_gen, pick_leaf, opt_bind. cbv zeta.
-  destruct (m_code_identifier m) as [cid|]; [|reflexivity].
-  destruct (m_code_file m) as [|c0 cf] eqn:E; [reflexivity|]. unfold str_is_empty.
-  rewrite g_safe_leafname_eq. destruct (safe_leafname (c0 :: cf)) as [leaf|]; [|reflexivity].
-  rewrite g_roae_eq. reflexivity.
+  intros [cf cid df did]. unfold g_code_info_breakpad_sym_lookup, code_info_breakpad_sym_lookup, code_info_breakpad_sym_lookup_gen.
+  destruct cid, df, did, cf; builder_crush.
 Qed.
 
 Lemma g_extra_debuginfo_eq : forall m,
   g_extra_debuginfo_lookup m = extra_debuginfo_lookup (m_debug_file m) (m_debug_identifier m).
 Proof.
-  intro m. unfold g_extra_debuginfo_lookup, extra_debuginfo_lookup, extra_debuginfo_lookup_gen, pick_leaf, opt_bind.
-  destruct (m_debug_file m) as [df|]; [|reflexivity].
-  destruct (m_debug_identifier m) as [id|]; [|reflexivity].
-  rewrite g_safe_leafname_eq. destruct (safe_leafname df) as [leaf|]; reflexivity.
+  intros [cf cid df did]. unfold g_extra_debuginfo_lookup, extra_debuginfo_lookup, extra_debuginfo_lookup_gen.
+  destruct cid, df, did; builder_crush.
 Qed.
 
 Lemma g_binary_eq : forall m,
   g_binary_lookup m = binary_lookup (m_code_file m) (m_code_identifier m) (m_debug_file m) (m_debug_identifier m).
 Proof.
-  intro m. unfold g_binary_lookup, binary_lookup, binary_lookup_gen, pick_leaf, opt_bind. cbv zeta.
-  destruct (m_code_identifier m) as [cid|]; [|reflexivity].
-  destruct (m_debug_file m) as [df|]; [|reflexivity].
-  destruct (m_debug_identifier m) as [id|]; [|reflexivity].
-  rewrite !g_safe_leafname_eq.
-  destruct (safe_leafname (m_code_file m)) as [bl|]; [|reflexivity].
-  destruct (safe_leafname df) as [dl|]; reflexivity.
+  intros [cf cid df did]. unfold g_binary_lookup, binary_lookup, binary_lookup_gen.
+  destruct cid, df, did; builder_crush.
 Qed.
 
 Lemma g_lookup_eq : forall m k,
